@@ -115,7 +115,18 @@ def relXcheck (st : StoreSt) (key : String) (impl : List String) (needHasName : 
 def handle (ds : DState) (op : String) (args impl : List String) : Option (DState × Out) :=
   let st := ds.store
   let ok := implOk impl
-  let note (st : StoreSt) : StoreSt := if readOnlyOps.contains op then st else { st with sinceDump := st.sinceDump ++ [(op, ok)] }
+  -- a short descriptor of the call: the op and the argument that selects the entry point
+  let desc : String := match op, args with
+    | "mk", _ :: k :: _ => s!"mk.{k}"
+    | "single", f :: _ :: how :: _ => s!"single.{f}.{how}"
+    | "link", r :: _ :: how :: _ => s!"link.{r}.{how}"
+    | "unlink", r :: _ => s!"unlink.{r}"
+    | "set", _ :: f :: _ => s!"set.{f}"
+    | "adim", _ :: k :: _ => s!"adim.{k}"
+    | "sdim", _ :: _ :: f :: _ => s!"sdim.{f}"
+    | "del", k :: _ => s!"del.{k}"
+    | _, _ => op
+  let note (st : StoreSt) : StoreSt := if readOnlyOps.contains op then st else { st with sinceDump := st.sinceDump ++ [(desc, ok)] }
   let fin (st : StoreSt) (o : Out) : Option (DState × Out) := some ({ ds with store := st }, o)
   match op with
   | "fopen" | "fclose" | "freopen" | "fflush" | "fdrop" | "fisopen" | "fbytes" =>
@@ -137,6 +148,9 @@ def handle (ds : DState) (op : String) (args impl : List String) : Option (DStat
     | _, _ => fin st (.ok "get.err")
   | "has" | "count" | "list" | "valid" | "drop" | "idof" | "haslink" | "getlink" | "countlink" | "listlink" =>
     fin st (.ok s!"{op}.{if ok then "ok" else "err"}")
+  | "adim" | "sdim" | "ddims" | "da_setext" | "da_fill" | "pvalues" | "pset" | "mkpv" =>
+    fin (note st) (.ok s!"{op}.{(args[1]?).getD ""}.{if ok then "ok" else (impl[1]?).getD "err"}")
+  | "dims" | "gdim" | "pget" | "da_read1" => fin st (.ok s!"{op}.{if ok then "ok" else "err"}")
   | "del" | "link" | "unlink" | "single" | "set" =>
     fin (note st) (.ok s!"{op}.{(args.head?).getD ""}.{if ok then (impl[1]?).getD "ok" else (impl[1]?).getD "err"}")
   | "xcheck" =>
@@ -166,11 +180,11 @@ def handle (ds : DState) (op : String) (args impl : List String) : Option (DStat
           if since.isEmpty then []
           else if since.all (fun e => !e.2) then [("rejected_operation_leaves_no_trace", prev == d)]
           else if since.all (fun e => sessionOps.contains e.1 && e.2) then [("reopen_exposes_the_same_tree", prev == d)]
-          else if since == [("del", true)] then relDelete prev d
+          else if since.length == 1 && since.all (fun e => e.1.startsWith "del." && e.2) then relDelete prev d
           else []
-      let tag := if since.isEmpty then "dump.first" else if since.all (fun e => !e.2) then "dump.after_reject"
+      let tag := if since.isEmpty then "dump.first" else if since.all (fun e => !e.2) then "dump.after_reject:" ++ ",".intercalate (since.map (·.1))
         else if since.all (fun e => sessionOps.contains e.1 && e.2) then "dump.after_reopen"
-        else if since == [("del", true)] then "dump.after_delete" else "dump.after_ops"
+        else if since.length == 1 && since.all (fun e => e.1.startsWith "del." && e.2) then "dump.after_delete" else "dump.after_ops"
       fin { st with lastDump := some d, sinceDump := [], everSeen := remember st.everSeen d } (judge tag impl impl (idRules ++ histRules))
   | _ => none
 
